@@ -48,6 +48,8 @@ class Profile:
     p_same_name: float = 0.35        # per inline callable: its __name__ is `check`, like others'
     p_lazy: float = 0.15             # per coroutine callback (async machines): a plain function returning the awaitable
     p_attr_event: float = 0.3        # per unknown event: its name is an attribute of the machine (state id, method, ...)
+    p_fresh: float = 0.0             # per op: another instance of the class over a fresh model, other start_value
+    p_set_allow: float = 0.0         # per op: allow_event_without_transition assigned after construction
     p_alias_sub: float = 0.12        # per scenario: an event re-declared under a second name by a subclass
 
 
@@ -268,7 +270,11 @@ def gen_ops(rng: random.Random, P: Profile, scn: Scn, evs):
     ops = [("construct",)]
     for _ in range(n):
         r = rng.random()
-        if rng.random() < P.p_write:
+        if rng.random() < P.p_fresh:
+            ops.append(("fresh", rng.choice([None] + [st.val for st in scn.states])))
+        elif rng.random() < P.p_set_allow:
+            ops.append(("set_allow", rng.random() < 0.5))
+        elif rng.random() < P.p_write:
             ops.append(("write", rng.choice([st.val for st in scn.states])))
         elif r < P.p_activate:
             ops.append(("activate",))
